@@ -14,6 +14,7 @@ import (
 	"github.com/zenon-network/go-zenon/vm/embedded/definition"
 
 	"verif/sim/simnode"
+	"verif/sim/tape"
 )
 
 // Flows are state-aware operations that are usually accepted and executed (the
@@ -100,7 +101,7 @@ var Flows = []Flow{
 			producer = gn.user()
 		}
 		b := gn.do(n, "pillar.Register", from, types.PillarContract, types.ZnnTokenStandard, new(big.Int).Set(constants.PillarStakeAmount),
-			definition.ABIPillars.PackMethodPanic(definition.RegisterMethodName, name, producer, gn.user(), uint8(t.Choose(101)), uint8(t.Choose(101))))
+			definition.ABIPillars.PackMethodPanic(definition.RegisterMethodName, name, producer, gn.user(), pct(t), pct(t)))
 		if b != nil {
 			gn.PillarNames = append(gn.PillarNames, name)
 			gn.NameOwner[name] = from
@@ -128,7 +129,7 @@ var Flows = []Flow{
 			from = gn.user()
 		}
 		return gn.do(n, "pillar.UpdatePillar", from, types.PillarContract, types.ZnnTokenStandard, big.NewInt(0),
-			definition.ABIPillars.PackMethodPanic(definition.UpdatePillarMethodName, name, gn.user(), gn.user(), uint8(t.Choose(101)), uint8(t.Choose(101))))
+			definition.ABIPillars.PackMethodPanic(definition.UpdatePillarMethodName, name, gn.user(), gn.user(), pct(t), pct(t)))
 	}},
 	{"register-sentinel", func(gn *Gen, n *simnode.Node) *nom.AccountBlock {
 		return gn.do(n, "sentinel.Register", gn.richUser(), types.SentinelContract, types.ZnnTokenStandard, new(big.Int).Set(constants.SentinelZnnRegisterAmount),
@@ -433,7 +434,7 @@ func init() {
 				switch t.Choose(4) {
 				case 0:
 					last = gn.do(n, "pillar.UpdatePillar", owner, types.PillarContract, types.ZnnTokenStandard, big.NewInt(0),
-						definition.ABIPillars.PackMethodPanic(definition.UpdatePillarMethodName, name, gn.user(), gn.user(), uint8(t.Choose(101)), uint8(t.Choose(101))))
+						definition.ABIPillars.PackMethodPanic(definition.UpdatePillarMethodName, name, gn.user(), gn.user(), pct(t), pct(t)))
 				case 1:
 					last = gn.do(n, "pillar.Delegate", gn.user(), types.PillarContract, types.ZnnTokenStandard, big.NewInt(0), definition.ABIPillars.PackMethodPanic(definition.DelegateMethodName, name))
 				case 2:
@@ -448,6 +449,14 @@ func init() {
 			return last
 		}},
 	)
+}
+
+// pct is a reward percentage: mostly 0..100, now and then beyond
+func pct(t *tape.Tape) uint8 {
+	if t.Choose(8) == 0 {
+		return []uint8{101, 150, 255}[t.Choose(3)]
+	}
+	return uint8(t.Choose(101))
 }
 
 const simrtGenesis = 1000000000
